@@ -658,6 +658,11 @@ def sub_immutable(acc, shard, nshards, tier, seed):
         "---\nsubstitutions:\n  s2: top\nhtml_meta:\n  k: v\n---\n{{ s2 }}\n",
         "---\nmyst:\n  heading_anchors: 3\n  fence_as_directive: [python]\n  bogus: 1\n  enable_extensions: nosuch\n---\n" + BODY_DEFAULT,
         "```{include} nosuch.md\n:heading-offset: 1\n```\n",
+        # a per-document configuration (front matter present) combined with constructs that adjust the configuration while rendering
+        "---\nmyst:\n  heading_anchors: 2\n---\n```{figure-md}\n![alt](img.png)\n\ncaption\n```\n\n<img src=\"x.png\">\n",
+        "---\nmyst:\n  substitutions: {s1: fm}\n---\n{{ s1 }}\n\n```{figure-md}\n:name: f\n![alt](img.png){w=10px}\n\ncaption {{ s2 }}\n```\n",
+        "---\nmyst:\n  enable_extensions: [deflist]\n---\n```{figure-md}\n![alt](img.png)\n\ncaption\n```\n",
+        "---\nmyst:\n  html_meta: {a: b}\n  url_schemes: {wiki: 'https://w/{{path}}'}\n---\n[x](wiki:y)\n",
     ]
     bases = [dict(b) for b in GLOBAL_BASES]
     with front.sphinx_project() as proj:
